@@ -250,6 +250,10 @@ func (m *Model) Draw(win vaxis.Window) {
 	if winW == 0 {
 		return
 	}
+	// Characters measures with the Unicode method; the terminal we draw on
+	// may use another one
+	remeasure(win.Vx, m.prompt)
+	remeasure(win.Vx, m.content)
 	win.Fill(vaxis.Cell{
 		Character: vaxis.Character{
 			Grapheme: " ",
@@ -319,6 +323,17 @@ func (m *Model) Draw(win vaxis.Window) {
 	}
 	if !m.HideCursor {
 		win.ShowCursor(cursor, 0, vaxis.CursorBlock)
+	}
+}
+
+// remeasure sets the width of each character to the one it has on the terminal
+// of vx
+func remeasure(vx *vaxis.Vaxis, chars []vaxis.Character) {
+	if vx == nil {
+		return
+	}
+	for i := range chars {
+		chars[i].Width = vx.RenderedWidth(chars[i].Grapheme)
 	}
 }
 
